@@ -615,12 +615,26 @@ func (ci *cindex) syncChunks(ctx context.Context, src string, cks chunk.Chunks) 
 	ci.lock.Lock()
 	sc := ci.journals[src]
 	newSC, rmvd := newSC.apply(sc, false)
+	// the result describes the chunks of cks, one by one
+	res := newSC.makeRecordsInfoCopy()
+	if n := len(cks); n > 0 {
+		// a chunk, which is newer than the last one of cks, was created after the list had been taken: it stays known
+		k := 0
+		for _, c := range rmvd {
+			if c.Id > cks[n-1].Id() {
+				newSC = append(newSC, c)
+			} else {
+				rmvd[k] = c
+				k++
+			}
+		}
+		rmvd = rmvd[:k]
+	}
 	if len(newSC) > 0 {
 		ci.journals[src] = newSC
 	} else {
 		delete(ci.journals, src)
 	}
-	res := newSC.makeRecordsInfoCopy()
 	ci.lock.Unlock()
 
 	ci.dropSortedChunks(ctx, rmvd)
